@@ -485,6 +485,32 @@ func isZeroConst(v ssa.Value) bool {
 // structLitFields: for a value that is the load of a local struct literal, the values stored
 // into its fields.
 func structLitFields(v ssa.Value) map[string]ssa.Value {
+	// a key built by a constructor function (avpCodeKey(app, code, vendor)): the literal it returns, with its
+	// parameters replaced by the arguments
+	if call, ok := v.(*ssa.Call); ok {
+		g := flow.StaticCallee(call)
+		if g == nil || g.Blocks == nil {
+			return nil
+		}
+		rvs := flow.ReturnValues(g, 0)
+		if len(rvs) != 1 {
+			return nil
+		}
+		inner := structLitFields(rvs[0])
+		if inner == nil {
+			return nil
+		}
+		out := map[string]ssa.Value{}
+		for k, val := range inner {
+			out[k] = val
+			if p, isP := flow.Peel(val).(*ssa.Parameter); isP && p.Parent() == g {
+				if i := paramIndex(g, p); i < len(call.Call.Args) {
+					out[k] = call.Call.Args[i]
+				}
+			}
+		}
+		return out
+	}
 	u, ok := v.(*ssa.UnOp)
 	if !ok || u.Op != token.MUL {
 		return nil
@@ -552,19 +578,68 @@ func (c *Ctx) c17Load() {
 				return
 			}
 			u := upd{mu: mu, fld: fld}
+			classify := func(v ssa.Value) string {
+				if k, isK := flow.ConstInt(v); isK && k == 4294967295 {
+					return "wildcard"
+				}
+				if tn, f2, _, ok := flow.FieldOf(flow.Peel(v)); ok && tn == "AVP" && f2 == "VendorID" {
+					return "own"
+				}
+				return "other"
+			}
+			var vendors []string
 			if fs := structLitFields(mu.Key); fs != nil {
 				if v, ok := fs["vendorID"]; ok {
-					if k, isK := flow.ConstInt(v); isK && k == 4294967295 {
-						u.vendor = "wildcard"
-					} else if tn, f2, _, ok := flow.FieldOf(flow.Peel(v)); ok && tn == "AVP" && f2 == "VendorID" {
-						u.vendor = "own"
-					} else {
-						u.vendor = "other"
+					vendors = []string{classify(v)}
+					// the vendor ranged over a small local array ([...]uint32{avp.VendorID, UndefinedVendorID}): one
+					// update per element
+					var arr *ssa.Alloc
+					if ld, isLd := flow.Peel(v).(*ssa.UnOp); isLd && ld.Op == token.MUL {
+						if ia, isIA := ld.X.(*ssa.IndexAddr); isIA {
+							arr, _ = ia.X.(*ssa.Alloc)
+						}
+					}
+					if ix, isIx := flow.Peel(v).(*ssa.Index); isIx {
+						// range over an array value: the array is loaded once, then indexed
+						if ld, isLd := ix.X.(*ssa.UnOp); isLd && ld.Op == token.MUL {
+							arr, _ = ld.X.(*ssa.Alloc)
+						}
+					}
+					if arr != nil {
+						{
+							if al := arr; al != nil {
+								var elems []string
+								for _, ref := range flow.Referrers(al) {
+									ea, isEA := ref.(*ssa.IndexAddr)
+									if !isEA {
+										continue
+									}
+									if _, isK := flow.ConstInt(ea.Index); !isK {
+										continue
+									}
+									for _, r2 := range flow.Referrers(ea) {
+										if st, isSt := r2.(*ssa.Store); isSt && st.Addr == ssa.Value(ea) {
+											elems = append(elems, classify(st.Val))
+										}
+									}
+								}
+								if len(elems) > 0 {
+									vendors = elems
+								}
+							}
+						}
 					}
 				}
 			}
-			u.chain = append(append([]ssa.Instruction{}, fe.chain...), mu)
-			ups = append(ups, u)
+			if len(vendors) == 0 {
+				vendors = []string{""}
+			}
+			for _, vd := range vendors {
+				u2 := u
+				u2.vendor = vd
+				u2.chain = append(append([]ssa.Instruction{}, fe.chain...), mu)
+				ups = append(ups, u2)
+			}
 		})
 	}
 	// conditional: inside a loop of its function the update (or a call on the way to it) is guarded by a
